@@ -62,7 +62,7 @@ def instances(tier, seed):
             g = grids[n % 5]
             add(fam.with_horizon(s, h), Cfg(method, N=[2, 3][n % 2], M=[2, 1][n % 2], intg='rk', grid=g))
             n += 1
-    nrand = 12 if tier == 'quick' else 150
+    nrand = 12 if tier == 'quick' else 600
     for r in range(nrand):
         disc = rng.random() < 0.25
         s = fam.random_diffeq(rng) if disc else fam.random_ode(rng)
